@@ -504,8 +504,9 @@ impl EventParser {
                 if tuple.elems.is_empty() {
                     return "()".to_string();
                 }
-                // For now, just mark as tuple
-                "tuple".to_string()
+                // The element types are not inferred: a non-empty tuple is not evident
+                // ("tuple" would be rendered as a reference to a type of that name)
+                "unknown".to_string()
             }
             // Literal values
             Expr::Lit(lit) => match &lit.lit {
